@@ -445,6 +445,22 @@ func C16(c *vlib.Ctx) {
 				}
 				c.Distinct("nontrivial", fmt.Sprintf("denied:%s:%s", hopClass(hi), why))
 			}
+		} else if hi := len(calls); pol.redirects && hi >= 1 && hi < 10 && hi < len(abs) && abs[hi] != nil && tr.next[calls[hi-1]] != "" {
+			// the last request was answered with a redirect and no further request
+			// went out: if the evaluator denies that hop, the delivery was denied by
+			// the policy and must be reported as such (the dispatcher dead-letters
+			// ErrPolicyDenied without retry and retries anything else)
+			ips, resolved := ipsOf(abs[hi])
+			if resolved || !needIPs {
+				if !needIPs {
+					ips = nil
+				}
+				if ok, why := evalEgress(pol, abs[hi], ips); !ok {
+					c.Violation(vlib.Signature{"class": "denied_hop_not_reported_as_policy_denied", "clause": why, "hop": hopClass(hi)},
+						fmt.Sprintf("redirect hop %d to %s is denied by the policy (%s) and was not sent, but the deliverer reported %v (status %d) instead of ErrPolicyDenied", hi, abs[hi], why, res2.Err, res2.StatusCode),
+						map[string]any{"policy": txt, "chain": chain, "calls": calls})
+				}
+			}
 		} else if len(calls) == 0 && res2.Err == nil {
 			c.Violation(vlib.Signature{"class": "success_without_request"}, "delivery reported a status without any request", map[string]any{"policy": txt, "chain": chain})
 		}
@@ -532,5 +548,58 @@ func c16Dispatcher(c *vlib.Ctx) {
 			}
 		}
 		tr.mu.Unlock()
+		c16DispatcherRedirects(c, be)
+	}
+}
+
+// c16DispatcherRedirects: redirects enabled; allowed targets answer with
+// redirects to denied and to allowed locations. A denied hop must end the
+// message in the DLQ as policy_denied after exactly one delivery attempt
+// (pushcheck judges the settlement against the deliverer result "policy"),
+// with no request to the denied location.
+func c16DispatcherRedirects(c *vlib.Ctx, be string) {
+	pol := dispatcher.EgressPolicy{DNSRebindProtection: true, Redirects: true, Deny: []dispatcher.EgressRule{{Host: "evil.test"}}}
+	tr := &recTransport{code: map[string]int{}, next: map[string]string{
+		"https://good.test/to-evil":    "https://evil.test/x",
+		"https://good.test/to-private": "https://10.0.0.1/x",
+		"https://good.test/to-http":    "ftp://good.test/x",
+		"https://good.test/to-good":    "https://8.8.8.8/ok",
+		"https://good.test/two-hops":   "https://good.test/to-rebind",
+		"https://good.test/to-rebind":  "https://rebind.test/x",
+	}}
+	d := dispatcher.NewHTTPDeliverer(&http.Client{Transport: tr}, pol)
+	d.Resolver = &fakeResolver{answers: map[string][]netip.Addr{"good.test": {netip.MustParseAddr("203.0.113.9")}, "evil.test": {netip.MustParseAddr("203.0.113.10")},
+		"rebind.test": {netip.MustParseAddr("203.0.113.9"), netip.MustParseAddr("192.168.0.9")}}, errs: map[string]bool{}}
+	want := map[string]pushcheck.Behaviour{
+		"https://good.test/to-evil": {Err: "policy"}, "https://good.test/to-private": {Err: "policy"}, "https://good.test/to-http": {Err: "policy"},
+		"https://good.test/to-good": {Status: 200}, "https://good.test/two-hops": {Err: "policy"},
+	}
+	var routes []dispatcher.RouteConfig
+	var msgs []pushcheck.Message
+	i := 0
+	for _, u := range []string{"https://good.test/to-evil", "https://good.test/to-private", "https://good.test/to-http", "https://good.test/to-good", "https://good.test/two-hops"} {
+		route := fmt.Sprintf("/rd%d", i)
+		routes = append(routes, dispatcher.RouteConfig{Route: route, Concurrency: 1, Targets: []dispatcher.TargetConfig{{URL: u, Timeout: time.Second, Retry: dispatcher.RetryConfig{Max: 3, Base: time.Second, Cap: time.Minute}}}})
+		msgs = append(msgs, pushcheck.Message{ID: fmt.Sprintf("rd%d", i), Route: route, Target: u})
+		i++
+	}
+	pushcheck.Run(c, pushcheck.Scenario{Label: "C16/dispatcher-redirects/" + be, Backend: be, Routes: routes, Messages: msgs, Real: d,
+		Script: func(_, target string, _ int) pushcheck.Behaviour { return want[target] }})
+	tr.mu.Lock()
+	defer tr.mu.Unlock()
+	perURL := map[string]int{}
+	for _, cu := range tr.calls {
+		perURL[cu]++
+		for _, bad := range []string{"https://evil.test/", "https://10.0.0.1/", "ftp://", "https://rebind.test/"} {
+			if strings.HasPrefix(cu, bad) {
+				c.Violation(vlib.Signature{"class": "denied_url_reached_transport", "clause": "dispatcher", "hop": "redirect"}, "dispatcher followed a redirect to denied location "+cu, nil)
+			}
+		}
+	}
+	for u, w := range want {
+		if w.Err == "policy" && perURL[u] != 1 {
+			c.Violation(vlib.Signature{"class": "policy_denied_hop_retried", "backend": be}, fmt.Sprintf("target %s redirects to a denied location; it was requested %d times, expected exactly one attempt", u, perURL[u]), map[string]any{"calls": tr.calls})
+		}
+		c.Distinct("nontrivial", "dispatcher_redirect:"+u+":"+w.String())
 	}
 }
